@@ -192,7 +192,7 @@ func runRowCase(c *Case) {
 					violate(c, "identity-independent-of-tag-order", scen, siteOf(enc),
 						fmt.Sprintf("tags %v -> tagsHash %x nameHash %x, tags %s -> tagsHash %x nameHash %x (stored tags %v vs %v)",
 							pm.Tags, r.st.TagsHash, r.st.NameHash, firstOrder, first.st.TagsHash, first.st.NameHash, r.st.Tags, first.st.Tags))
-				} else if m.TS.Base != "zero" && r.st.contentKey() != first.st.contentKey() {
+				} else if r.st.crossKey(m.TS.Base) != first.st.crossKey(m.TS.Base) {
 					violate(c, "stored-independent-of-tag-order", scen, siteOf(enc),
 						fmt.Sprintf("tags %v stored as %s, tags %s stored as %s", pm.Tags, r.st.contentKey(), firstOrder, first.st.contentKey()))
 				}
@@ -218,7 +218,7 @@ func runRowCase(c *Case) {
 			continue
 		}
 		scen := c.Stage + "/" + base.enc + "-vs-" + o.enc
-		if base.r.st.contentKey() != o.r.st.contentKey() {
+		if base.r.st.crossKey(m.TS.Base) != o.r.st.crossKey(m.TS.Base) {
 			violate(c, "formats-agree", scen, siteOf(o.enc), fmt.Sprintf("%s stored %s, %s stored %s", base.enc, base.r.st.contentKey(), o.enc, o.r.st.contentKey()))
 		} else if base.r.st.TagsHash != o.r.st.TagsHash {
 			violate(c, "formats-agree-identity", scen, siteOf(o.enc), fmt.Sprintf("tags %v: %s tagsHash %x, %s tagsHash %x", base.r.st.Tags, base.enc, base.r.st.TagsHash, o.enc, o.r.st.TagsHash))
